@@ -19,7 +19,11 @@ MANIFEST = dict(
          "must be the documented sentinel (-9999; summed weight 0); bin edges/centres are min + i*binsize (+ binsize, + binsize/2); the "
          "result keys exist exactly under the configurations that define them; equal-occupancy binning histograms the sorted positions "
          "with bin size nperbin, maps the engine's reverse indices through the limited sort index to the original frame, takes low/high "
-         "from the first/last member and merges a short last bin (counts added, low of the predecessor, high of the last).",
+         "from the first/last member and merges a short last bin (counts added, low of the predecessor, high of the last).  A per-bin array "
+         "built for all bins at once by a segmented reduction over the index area (ufunc.reduceat with the bins' offsets) is given numpy's "
+         "documented value: the reduction over the members for a non-empty bin, the element at the offset for an empty one, the rest of the "
+         "operand for the last one.  Finally the options are followed by data dependence from histogram() to Binner.dohist() and on to the "
+         "methods of Binner: a parameter fed a plain copy of an option must be fed the option of its own name, and no public option is cut off.",
     note="Not decided: numerical equality, the index arithmetic of the last-bin merge on the reverse indices. Trusted: numpy "
          "reductions, sympy normaliser, the histogram engine's reverse-index layout (offsets 0..nbin, then the members bin by bin).",
     technique="static analysis: abstract interpretation over a symbolic term domain (reductions as uninterpreted functionals, arrays as guarded stores), "
@@ -32,7 +36,7 @@ F = {n: sp.Function(n) for n in ("MEAN", "STD", "MEDIAN", "SUM")}
 
 # rules that keep their verdict however the code is laid out (decided by term equality over the values the result keys hold and by
 # path conditions decided per scenario; nothing in this check looks at statement text, local names or statement order)
-SEMANTIC = ('R14.1', 'R14.2', 'R14.3', 'R14.4', 'R14.5')
+SEMANTIC = ('R14.1', 'R14.2', 'R14.3', 'R14.4', 'R14.5', 'R14.6')
 
 
 # ---------------------------------------------------------------------------------------------------------------------------------
@@ -51,6 +55,9 @@ XP = "{xpref}"                                              # stands for the (un
 HPOS = sp.Symbol("h", positive=True, integer=True)
 MPOS = sp.Symbol("m", positive=True, integer=True)
 _CONT = symx.Opaque("continue")
+APPEND, MEMBER_AT = sp.Function("APPEND"), sp.Function("MEMBER_AT")
+# numpy ufuncs whose .reduce over a selection the term domain has a functional for
+UFUNC_REDUCE = {"add": "SUM"}
 
 
 def _start(sym):
@@ -144,25 +151,42 @@ class Arr:
         self.n = n
         self.stores = []
         self.tainted = False
+        self.open_last = None     # set when the initial value of the LAST bin is not the generic one (text says why)
 
     def copy(self):
         a = Arr(self.init, self.n)
         a.stores = list(self.stores)
         a.tainted = self.tainted
+        a.open_last = self.open_last
         return a
 
     def map(self, fn):
         a = Arr(fn(self.init), self.n)
         a.stores = [(c, k, fn(v)) for c, k, v in self.stores]
         a.tainted = self.tainted
+        a.open_last = self.open_last
         return a
+
+    def init_survives(self, scen):
+        """no store replaces the initial value in this scenario"""
+        for c, k, val in self.stores:
+            if k == "other":
+                raise Undecided("store at an index that is not the generic bin")
+            t = _decide(c, scen)
+            if t is None:
+                raise Undecided("store condition %s" % (c,))
+            if t:
+                return False
+        return True
 
     def store(self, idx, v, cond, env):
         if isinstance(idx, slice) and idx == slice(None):
             kind = "all"
         elif isinstance(idx, symx.Mask):
             kind = "mask"
-            cond = sp.And(cond, idx.cond)
+            # a mask over the bins, seen from the generic bin: the counts as a whole stand for the generic bin's count
+            tmp = sp.Dummy()
+            cond = sp.And(cond, idx.cond.subs(AT(HIST, GEN), tmp).subs(HIST, AT(HIST, GEN)).subs(tmp, AT(HIST, GEN)))
         elif isinstance(idx, sp.Basic) and idx == GEN:
             kind = "gen"
         else:
@@ -330,7 +354,7 @@ class RevObj:
                 return self.area.subs(POS, LAST)
             if self._mentions_offsets(idx):
                 # some other place relative to the bin's offsets (one past the last member, the second member ...)
-                return self.area.subs(POS, sp.Function("MEMBER_AT")(idx))
+                return self.area.subs(POS, MEMBER_AT(idx))
         return symx.Opaque("element of the reverse indices")
 
     def store(self, idx, v, cond, env):
@@ -368,6 +392,7 @@ class State:
         self.skipped = []
         self.do_hist = []
         self.merges = []
+        self.area_rev = None     # the reverse-index object whose index area was last selected as a whole
 
 
 def _taint(v, seen=None):
@@ -526,7 +551,10 @@ class BEnv(symx.Env):
 
     def subscript(self, base, idx, e):
         if isinstance(base, RevObj):
-            return base.get(idx)
+            r = base.get(idx)
+            if isinstance(r, sp.Basic) and r.has(AREA):
+                self.bs.area_rev = base
+            return r
         if isinstance(base, Arr):
             return base.read(idx, self.cur)
         if isinstance(base, Vec):
@@ -554,6 +582,40 @@ class BEnv(symx.Env):
             return b.map(lambda x: symx.Env.binop(self, op, a, x, node))
         return symx.Env.binop(self, op, a, b, node)
 
+    def _reduceat(self, c, full):
+        """numpy's ufunc.reduceat(a, indices) with the bins' offsets into the reverse indices as segment starts: element i of the
+        result is ufunc.reduce(a[indices[i]:indices[i+1]]) when indices[i] < indices[i+1], and the single element a[indices[i]]
+        otherwise (numpy's documented rule for an empty segment: NOT the identity of the ufunc).  Recognised when `a` is a vector
+        over the whole index area (optionally with elements appended behind it) and `indices` are the offsets rev[0:nbin] counted
+        from the beginning of the index area; anything else is not followed."""
+        notfollowed = symx.Opaque(full)
+        ufunc = full.split(".")[-2]
+        a = c.args[0] if c.args else kwarg(c, "array")
+        ix = c.args[1] if len(c.args) > 1 else kwarg(c, "indices")
+        if a is None or ix is None or len(c.args) > 2 or any(k.arg not in ("array", "indices") for k in c.keywords):
+            return notfollowed
+        a, ix = self.ev(a), self.ev(ix)
+        rv = self.bs.area_rev
+        while isinstance(a, sp.Basic) and a.func == APPEND:
+            a = a.args[0]
+        if not (isinstance(a, sp.Basic) and a.has(AREA) and isinstance(ix, sp.Basic) and isinstance(rv, RevObj) and rv.nbin is not None):
+            return notfollowed
+        if a.has(GEN) or not _eq(ix + rv.nbin + 1, _start(rv.sym)):
+            return notfollowed
+        mm = self.bs.member_map
+        sel = a.subs(AREA, MEMBERS).replace(lambda t: t.func == AT and len(t.args) == 2 and t.args[1] == MEMBERS and t.args[0] in mm,
+                                             lambda t: mm[t.args[0]])
+        if sel.has(MEMBERS):
+            return notfollowed
+        red = F[UFUNC_REDUCE[ufunc]] if ufunc in UFUNC_REDUCE else sp.Function("REDUCE_" + ufunc.upper())
+        at_offset = a.subs(AREA, MEMBER_AT(_start(rv.sym)))      # what the index area holds at the bin's offset: not a member of the bin
+        rv.sels += 1
+        r = Arr(sp.Piecewise((red(sel), sp.Ne(_start(rv.sym), _end(rv.sym))), (at_offset, True)), rv.nbin)
+        # the index area holds every datum handed to the engine, also those behind the last bin that the histogram did not count
+        r.open_last = ("%s runs its last segment to the end of its operand: the last bin also takes in whatever the index area holds behind "
+                       "its members (data the histogram did not count)" % full.replace("numpy.", "np."))
+        return r
+
     def call(self, c, stmt_level=False):
         f = c.func
         nm = call_name(c)
@@ -574,7 +636,14 @@ class BEnv(symx.Env):
             n = self._count(self.ev(c.args[0]))
             if n is not None:
                 return n
-        if isinstance(f, ast.Attribute) and nm in ("append", "copy", "fill", "keys", "values", "items"):
+        if full == "numpy.append" and len(c.args) == 2 and not c.keywords:
+            a, v = self.ev(c.args[0]), self.ev(c.args[1])
+            if isinstance(a, sp.Basic) and a.has(AREA) and symx._is_expr(v) and not sp.sympify(v).has(AREA):
+                return APPEND(a, sp.sympify(v))     # a vector over the index area with one more element behind it
+            return symx.Opaque("numpy.append")
+        if full.startswith("numpy.") and nm == "reduceat":
+            return self._reduceat(c, full)
+        if isinstance(f, ast.Attribute) and nm in ("append", "copy", "fill", "keys", "values", "items") and not full.startswith("numpy."):
             recv = self.ev(f.value)
             if nm == "append" and isinstance(recv, list) and len(c.args) == 1:
                 recv.append(self.ev(c.args[0]))
@@ -736,6 +805,7 @@ def run(chk):
     edges(chk, fi, runs)
     keys(chk, fi, runs)
     equal_occupancy(chk, repo)
+    option_plumbing(chk, repo)
 
 
 # ---------------------------------------------------------------------------------------------------------------------------------
@@ -774,7 +844,7 @@ CONFIGS = [(y, w) for y in (False, True) for w in (False, True)]
 def calc_stats_runs(repo, fi):
     runs = {}
     for hasy, hasw, npb in [(y, w, False) for y, w in CONFIGS] + [(True, True, True)]:
-        sd = SelfDict({"hist": HIST, "rev": RevObj(REV), "binsize": BINSIZE})
+        sd = SelfDict({"hist": HIST, "rev": RevObj(REV, SIZE(HIST)), "binsize": BINSIZE})      # one offset per bin of the histogram, plus one
         if npb:
             sd.update({"nperbin": NPB, "low": LOW, "high": HIGH})
         extra = {}
@@ -883,6 +953,9 @@ def arms(chk, fi, runs):
                     g.append(ok)
                     if not ok:
                         gmsg = "found %s" % (got,)
+                    elif arr.open_last and arr.init_survives(_scen(sc)):
+                        g.append(False)
+                        gmsg = "in the last bin: %s" % arr.open_last
                 except Undecided as e:
                     g.append(None)
                     undecided.append("%s: %s" % (q, e))
@@ -927,6 +1000,10 @@ def sentinels(chk, fi, runs):
                     continue
                 try:
                     v = arr.start()
+                    if isinstance(v, sp.Basic) and v.has(sp.Piecewise):
+                        # an array computed for all bins at once has no common starting value: what counts is what an empty bin
+                        # holds in the end
+                        v = arr.value(_scen(0))
                     ok = symx._is_expr(v) and _same_term(sp.sympify(v), want)
                     res.append(bool(ok))
                     if not ok:
@@ -942,6 +1019,27 @@ def sentinels(chk, fi, runs):
     chk.ob("R14.2", "calc_stats::all-results-start-at-sentinel", ok, where, "every other statistic starts at the sentinel -9999 (%s)" % (msg or "as found"))
     ok, msg = starts(["whist"], sp.Integer(0))
     chk.ob("R14.2", "calc_stats::summed-weight-starts-at-zero", ok, where, "the summed weight of an empty bin is 0 (%s)" % (msg or "as found"))
+    # what an empty bin holds in the end, however the arrays are filled (per-bin stores, masked stores, whole-array expressions)
+    res, msg = [], ""
+    for q in REF:
+        want = sp.Integer(0) if q == "whist" else sp.Integer(-9999)
+        for cfg, r in _stat_runs(runs, q):
+            arr, why = _stat_array(r, STATKEYS[q][0])
+            if arr is None:
+                res.append(None)
+                msg = msg or "%s: %s" % (q, why)
+                continue
+            try:
+                v = arr.value(_scen(0))
+                ok = bool(symx._is_expr(v) and _same_term(sp.sympify(v), want))
+                res.append(ok)
+                if not ok:
+                    msg = "%s of an empty bin is %s, expected %s" % (q, v, want)
+            except Undecided as e:
+                res.append(None)
+                msg = msg or "%s: %s" % (q, e)
+    chk.ob("R14.2", "calc_stats::empty-bin-values", _verdict(res), where,
+           "an empty bin ends with the sentinel -9999 in every statistic and 0 in the summed weight (%s)" % (msg or "as found"))
     # element stores only for non-empty bins
     res, msg, nst = [], "", 0
     for q in REF:
@@ -953,11 +1051,15 @@ def sentinels(chk, fi, runs):
                 continue
             per_bin = [(c, k) for c, k, _ in arr.stores if k != "all"]
             nst += len(per_bin)
-            if not per_bin:
+            if not per_bin and not (isinstance(arr.init, sp.Basic) and arr.init.has(sp.Piecewise)):
+                # (an array computed for all bins at once carries its per-bin condition in its value: judged by empty-bin-values)
                 res.append(None)
                 msg = msg or "%s: no per-bin store found" % q
-            for c, k in per_bin:
+            for c, k, val in [(c, k, val) for c, k, val in arr.stores if k != "all"]:
                 t = None if k == "other" else _decide(c, _scen(0))
+                if t and symx._is_expr(val) and _same_term(sp.sympify(val), sp.Integer(0) if q == "whist" else sp.Integer(-9999)):
+                    res.append(True)         # a store that does reach empty bins, and writes the sentinel itself
+                    continue
                 res.append(None if t is None else (not t))
                 if t is not False:
                     msg = "%s is stored under %s" % (q, c)
@@ -1219,3 +1321,299 @@ def equal_occupancy(chk, repo):
             if not ok:
                 msg = "hist=%r rev=%r nperbin=%r" % (h, v, npb)
     chk.ob("R14.5", "_hist_by_num::results-stored", _verdict(res), where, "hist / rev / nperbin are stored, before a merge reads them (%s)" % (msg or "as found"))
+
+
+# ---------------------------------------------------------------------------------------------------------------------------------
+# the options reach the code that implements them: histogram() -> Binner(...).dohist(...) -> the methods of Binner
+# ---------------------------------------------------------------------------------------------------------------------------------
+OPTIONS = ("binsize", "nbin", "nperbin", "min", "max", "rev", "mergelast")       # public options of histogram() and Binner.dohist()
+CTOR_ROLES = {"x": "data", "weights": "weights"}                                  # Binner.__init__ parameter <- histogram() parameter
+
+
+def _positional(fi, drop_self):
+    a = fi.node.args
+    ps = [x.arg for x in a.posonlyargs + a.args]
+    static = any(isinstance(x, ast.Name) and x.id == "staticmethod" for x in fi.node.decorator_list)
+    return ps[1:] if drop_self and not static else ps
+
+
+def _all_params(fi):
+    a = fi.node.args
+    return [x.arg for x in a.posonlyargs + a.args + a.kwonlyargs]
+
+
+class _Deps:
+    """flow-insensitive data dependence inside one function: the parameters a value may derive from.  An over-approximation (every
+    assignment to a name counts wherever it stands, a parameter that is reassigned still counts as itself), so `does not depend on`
+    is definite."""
+
+    def __init__(self, fi):
+        self.fi = fi
+        self.params = set(_all_params(fi))
+        a = fi.node.args
+        if a.vararg:
+            self.params.add(a.vararg.arg)
+        if a.kwarg:
+            self.params.add(a.kwarg.arg)
+        self.defs = {}           # local name -> expressions that flow into it
+        for n in ast.walk(fi.node):
+            if isinstance(n, ast.Assign):
+                for t in n.targets:
+                    self._target(t, n.value)
+            elif isinstance(n, (ast.AugAssign, ast.AnnAssign)) and n.value is not None:
+                self._target(n.target, n.value)
+            elif isinstance(n, ast.NamedExpr):
+                self._target(n.target, n.value)
+            elif isinstance(n, (ast.For, ast.comprehension)):
+                self._target(n.target, n.iter)
+            elif isinstance(n, ast.With):
+                for it in n.items:
+                    if it.optional_vars is not None:
+                        self._target(it.optional_vars, it.context_expr)
+            elif isinstance(n, ast.Call) and isinstance(n.func, ast.Attribute):
+                # a method called on a local (opts.update(rev=...), lst.append(x)) may fold its arguments into it
+                b = n.func.value
+                while isinstance(b, (ast.Attribute, ast.Subscript)):
+                    b = b.value
+                if isinstance(b, ast.Name):
+                    for x in list(n.args) + [k.value for k in n.keywords]:
+                        self.defs.setdefault(b.id, []).append(x)
+        self._memo = {}
+
+    def _target(self, t, value):
+        if isinstance(t, ast.Name):
+            self.defs.setdefault(t.id, []).append(value)
+        elif isinstance(t, (ast.Tuple, ast.List)):
+            for x in t.elts:
+                self._target(x, value)
+        elif isinstance(t, ast.Starred):
+            self._target(t.value, value)
+        elif isinstance(t, (ast.Subscript, ast.Attribute)):
+            b = t
+            while isinstance(b, (ast.Attribute, ast.Subscript)):
+                b = b.value
+            if isinstance(b, ast.Name):
+                self.defs.setdefault(b.id, []).append(value)
+
+    def of_name(self, name, busy=None):
+        if name in self._memo:
+            return self._memo[name]
+        busy = busy if busy is not None else set()
+        if name in busy:
+            return set()
+        busy.add(name)
+        out = {name} if name in self.params else set()
+        for e in self.defs.get(name, []):
+            out |= self.of(e, busy)
+        busy.discard(name)
+        if not busy:
+            self._memo[name] = out
+        return out
+
+    def of(self, e, busy=None):
+        out = set()
+        for n in ast.walk(e):
+            if isinstance(n, ast.Name) and isinstance(n.ctx, ast.Load):
+                out |= self.of_name(n.id, busy)
+        return out
+
+    def loads(self, name):
+        return [n for n in ast.walk(self.fi.node) if isinstance(n, ast.Name) and n.id == name and isinstance(n.ctx, ast.Load)]
+
+
+def _keyword_dict(fi, e):
+    """the entries of a dictionary passed as **e: {key: value expression}, or None when it is not a literal the function builds"""
+    if isinstance(e, ast.Dict):
+        if all(isinstance(k, ast.Constant) and isinstance(k.value, str) for k in e.keys):
+            return {k.value: v for k, v in zip(e.keys, e.values)}
+        return None
+    if isinstance(e, ast.Call) and isinstance(e.func, ast.Name) and e.func.id == "dict" and not e.args and all(k.arg for k in e.keywords):
+        return {k.arg: k.value for k in e.keywords}
+    if isinstance(e, ast.Name):
+        out, found = {}, False
+        for n in ast.walk(fi.node):
+            if isinstance(n, ast.Assign) and any(isinstance(t, ast.Name) and t.id == e.id for t in n.targets):
+                d = _keyword_dict(fi, n.value) if not isinstance(n.value, ast.Name) else None
+                if d is None or found:
+                    return None
+                out.update(d)
+                found = True
+        if not found:
+            return None
+        for n in ast.walk(fi.node):
+            if isinstance(n, ast.Assign):
+                for t in n.targets:
+                    if isinstance(t, ast.Subscript) and isinstance(t.value, ast.Name) and t.value.id == e.id:
+                        if isinstance(t.slice, ast.Constant) and isinstance(t.slice.value, str):
+                            out[t.slice.value] = n.value
+                        else:
+                            return None
+            elif isinstance(n, ast.Call) and isinstance(n.func, ast.Attribute) and isinstance(n.func.value, ast.Name) and n.func.value.id == e.id:
+                return None      # opts.update(...), opts.pop(...): not followed
+        return out
+    return None
+
+
+def _bind(fi, call, callee, drop_self):
+    """callee parameter -> argument expression of this call (None: the call uses * / ** forms that are not followed)"""
+    pos = _positional(callee, drop_self)
+    names = set(_all_params(callee))
+    bound = {}
+    for k, a in enumerate(call.args):
+        if isinstance(a, ast.Starred):
+            return None
+        if k < len(pos):
+            bound[pos[k]] = a
+    for kw in call.keywords:
+        if kw.arg is None:
+            d = _keyword_dict(fi, kw.value)
+            if d is None:
+                return None
+            bound.update(d)
+        else:
+            bound[kw.arg] = kw.value
+    return {p: a for p, a in bound.items() if p in names}
+
+
+def _binner_calls(repo, fi):
+    """calls made in `fi` that are resolved to the constructor or to a method of Binner: (call, callee FuncInfo, is constructor)"""
+    cls = ST + "Binner"
+    mod = fi.module
+
+    def is_ctor(e):
+        if isinstance(e, ast.Call):
+            d = dotted_name(e.func)
+            return bool(d) and repo.resolve_name(mod, d) == cls
+        return False
+
+    instances = set()
+    if fi.cls == "Binner" and fi.qualname.startswith(cls + ".") and _positional(fi, False):
+        instances.add(_positional(fi, False)[0])            # self
+    for n in ast.walk(fi.node):
+        if isinstance(n, ast.Assign) and is_ctor(n.value):
+            instances |= {t.id for t in n.targets if isinstance(t, ast.Name)}
+    out = []
+    for n in ast.walk(fi.node):
+        if not isinstance(n, ast.Call):
+            continue
+        if is_ctor(n) and repo.has(cls + ".__init__"):
+            out.append((n, repo.func(cls + ".__init__"), True))
+        elif isinstance(n.func, ast.Attribute) and repo.has(cls + "." + n.func.attr):
+            r = n.func.value
+            if (isinstance(r, ast.Name) and r.id in instances) or is_ctor(r):
+                out.append((n, repo.func(cls + "." + n.func.attr), False))
+    return out
+
+
+def _is_copy(deps, e, busy=None):
+    """the value of e is one of the values of the names/constants it mentions, unchanged (a name, a constant, and/or/not, a
+    conditional expression, bool(...)): no arithmetic, no call that computes something new"""
+    busy = busy if busy is not None else set()
+    if isinstance(e, ast.Constant):
+        return True
+    if isinstance(e, ast.Name):
+        if e.id in busy:
+            return True
+        busy.add(e.id)
+        ok = all(_is_copy(deps, d, busy) for d in deps.defs.get(e.id, [])) and (e.id in deps.params or bool(deps.defs.get(e.id)))
+        busy.discard(e.id)
+        return ok
+    if isinstance(e, ast.BoolOp):
+        return all(_is_copy(deps, v, busy) for v in e.values)
+    if isinstance(e, ast.IfExp):
+        return _is_copy(deps, e.body, busy) and _is_copy(deps, e.orelse, busy)
+    if isinstance(e, ast.UnaryOp) and isinstance(e.op, ast.Not):
+        return _is_copy(deps, e.operand, busy)
+    if isinstance(e, ast.Call) and isinstance(e.func, ast.Name) and e.func.id == "bool" and len(e.args) == 1 and not e.keywords:
+        return _is_copy(deps, e.args[0], busy)
+    return False
+
+
+def _plumb(repo, fi, options, ctor_roles=None):
+    """per option of `fi`: how each call into Binner that has a parameter of the same meaning is fed: (kind, where, text) with kind
+    P: a value that derives from the option; X: a plain copy of other option(s); D: the callee's default or a constant;
+    C: something computed from other values; U: arguments not followed"""
+    deps = _Deps(fi)
+    per = {o: [] for o in options}
+    argnodes = {o: set() for o in options}
+    for call, callee, ctor in _binner_calls(repo, fi):
+        if callee is fi and not ctor:
+            continue
+        cparams = set(_all_params(callee))
+        roles = dict(ctor_roles or {}) if ctor else {o: o for o in options}
+        roles = {p: o for p, o in roles.items() if p in cparams and o in per}
+        if not roles:
+            continue
+        bound = _bind(fi, call, callee, True)
+        w = fi.where(call)
+        cn = norm(call.func)
+        for p, o in roles.items():
+            if bound is None:
+                per[o].append(("U", w, "the arguments of `%s(...)` are not followed" % cn))
+                continue
+            if p not in bound:
+                per[o].append(("D", w, "`%s(...)` leaves its parameter `%s` at the default" % (cn, p)))
+                continue
+            e = bound[p]
+            argnodes[o] |= {id(n) for n in ast.walk(e)}
+            src = deps.of(e)
+            others = sorted(x for x in src if x in options and x != o)
+            if o in src:
+                per[o].append(("P", w, ""))
+            elif _is_copy(deps, e) and others:
+                per[o].append(("X", w, "`%s(...)` receives `%s` for its parameter `%s`: the value of the option `%s`, not of `%s`"
+                               % (cn, norm(e), p, "`, `".join(others), o)))
+            elif _is_copy(deps, e) and not src:
+                per[o].append(("D", w, "`%s(...)` receives the constant `%s` for its parameter `%s`" % (cn, norm(e), p)))
+            else:
+                per[o].append(("C", w, "`%s(...)` receives `%s` for its parameter `%s`" % (cn, norm(e), p)))
+    return deps, per, argnodes
+
+
+def option_plumbing(chk, repo):
+    """R14.6: the property is stated for every value of the options, through Binner.dohist and through histogram().  An option can
+    only have its documented effect if the value the caller passed is what arrives at the parameter of the same meaning one level
+    down: (a) a parameter that is fed a plain copy of an option must be fed the option of its own name, not another one's;
+    (b) a public option must not be cut off (neither passed on nor read anywhere)."""
+    units = []
+    if repo.has(ST + "histogram"):
+        units.append((repo.func(ST + "histogram"), OPTIONS + tuple(sorted(set(CTOR_ROLES.values()))), CTOR_ROLES, True))
+    for q, fi in sorted(repo.funcs.items()):
+        if fi.cls == "Binner" and q.startswith(ST + "Binner.") and fi.name != "__init__":
+            opts = tuple(o for o in OPTIONS if o in _all_params(fi))
+            if opts:
+                units.append((fi, opts, None, fi.name == "dohist"))
+    if not any(u[3] for u in units):
+        chk.ob("R14.6", "options::entry-points", None, "", "neither histogram() nor Binner.dohist() with the public options was found")
+        return
+    for fi, opts, roles, public in units:
+        chk.analysed_unit(fi.qualname)
+        deps, per, argnodes = _plumb(repo, fi, opts, roles)
+        for o in opts:
+            got = per[o]
+            kinds = {g[0] for g in got}
+            first = lambda k: [g for g in got if g[0] == k][0]
+            read_elsewhere = [n for n in deps.loads(o) if id(n) not in argnodes[o]]
+            if "X" in kinds:
+                ok, (_, where, msg) = False, first("X")
+            elif "U" in kinds:
+                ok, (_, where, msg) = None, first("U")
+            elif "P" in kinds and "D" not in kinds:
+                ok, where, msg = True, first("P")[1], "passed on in %d call(s)" % len([g for g in got if g[0] == "P"])
+            elif "P" in kinds:
+                ok, (_, where, msg) = None, first("D")
+                msg += " while another call passes the option on"
+            elif not read_elsewhere and public:
+                where = first("D")[1] if "D" in kinds else fi.where()
+                ok, msg = False, "the option is cut off: %s" % (first("D")[2] if "D" in kinds else "the parameter is never read")
+                if not deps.loads(o):
+                    msg += " and `%s` is not read anywhere in %s()" % (o, fi.name)
+            elif "D" in kinds and public:
+                ok, (_, where, msg) = None, first("D")
+                msg += ", the option is read elsewhere in %s()" % fi.name
+            elif public and not got:
+                ok, where, msg = None, fi.where(), "`%s` is read in %s() but not passed to Binner code with a parameter of that name" % (o, fi.name)
+            else:
+                continue          # a helper that consumes the value itself, or passes on something it computed from it
+            chk.ob("R14.6", "options::%s::%s" % (fi.name, o), ok, where,
+                   "the option `%s` of %s() arrives at the parameter of the same meaning in the Binner code it calls (%s)" % (o, fi.name, msg))
